@@ -29,6 +29,7 @@ def plan(tier, seed):
     q = tier == "quick"
     specs = shards("docs", 4000 if q else 250000, 250 if q else 4000, seed)
     specs += shards("reused", 1500 if q else 80000, 250 if q else 4000, seed)
+    specs += shards("boundaries", 480 if q else 24000, 30 if q else 600, seed)
     specs += shards("noisy", 4000 if q else 150000, 500 if q else 5000, seed)
     specs += shards("faulted", 2000 if q else 80000, 250 if q else 4000, seed)
     specs += shards("rows", 6 ** 5 if q else 6 ** 7, 6 ** 4 if q else 6 ** 5, seed, L=5 if q else 7)
@@ -42,13 +43,14 @@ ROW_ALPHABET = ["|", "\\", "n", " ", "x", "\U0001F600"]
 
 def run_shard(spec, M):
     fam, seed = spec["family"], spec["seed"]
-    if fam in ("docs", "reused"):
+    if fam in ("docs", "reused", "boundaries"):
         reused = doccheck.Reused(rng(seed, ID, "reused", spec["shard"])) if fam == "reused" else None
         if reused is not None:
             reused.spec = spec
         for i in range(spec["start"], spec["start"] + spec["n"]):
-            R = doccheck.make_doc(seed, fam, i)
-            case = {"kind": "doc", "family": fam, "index": i, "seed": seed, "text": R.text}
+            kw = {"size": "huge" if i % 30 == 0 else ("small" if i % 2 else "medium"), "special": 0.35, "deep": True, "rare": False} if fam == "boundaries" else {}
+            R = doccheck.make_doc(seed, fam, i, **kw)
+            case = {"kind": "doc", "family": fam, "index": i, "seed": seed, "text": R.text if len(R.text) < 20000 else R.text[:20000], "kw": kw}
             doccheck.check_doc(R, M, case, "C04", reused=reused)
             if i % 499 == 0:
                 M.sample({"dialect": R.dialect, "text": short(R.text, 300)})
@@ -141,7 +143,7 @@ def replay(case, M):
         return
     k = case["kind"]
     if k == "doc":
-        R = doccheck.make_doc(case["seed"], case["family"], case["index"])
+        R = doccheck.make_doc(case["seed"], case["family"], case["index"], **case.get("kw", {}))
         doccheck.check_doc(R, M, case, "C04")
     elif k == "noisy":
         check_noisy([tuple(x) for x in case["L"]], case["text"], M, case)
